@@ -129,11 +129,27 @@ def specs():
     return out
 
 
+def library_value(fb, name_tok, exports):
+    """a Library as the crate stores it: (name, table of its exports) — so that whatever way the code reads it (iter_definitions, a
+    lookup by name, ...) is followed in the crate's own code; None when the type is not the two-field struct it is today"""
+    try:
+        a = fb.adt("interpreter::library::Library")
+    except mir.AnchorMissing:
+        return None
+    vs = a.get("variants", [])
+    if len(vs) != 1 or len(vs[0].get("fields", [])) != 2 or "HashMap<" not in str(vs[0]["fields"][1].get("ty", "")):
+        return None
+    e = Enum(0, [name_tok, Map((n, v) for n, v in exports)])
+    e.adt = "interpreter::library::Library"
+    e.name = vs[0].get("name") or "Library"
+    return e
+
+
 def run_spec(w, spec, order=(0, 1, 2)):
     exports0 = [("a", Val("A")), ("b", Val("B")), ("c", Val("C"))]
     exports = [exports0[i] for i in order]       # the order in which the library's (hash) table happens to yield its exports
     lib = Val("library-name")
-    libtok = Val("library")
+    libtok = library_value(w.fb, lib, exports) or Val("library")
     selfv = fresh_fields(w.fb)
     selfv[w.fields.index("imported_library")] = Map()
     ev = []
@@ -142,9 +158,9 @@ def run_spec(w, spec, order=(0, 1, 2)):
         if c == ITP + "get_library":
             ev.append(("get_library", a[1] if len(a) > 1 else None))
             return ok(libtok)
-        if c.endswith("Library::iter_definitions") and a and a[0] is libtok:
+        if c.endswith("Library::iter_definitions") and a and a[0] is libtok and isinstance(libtok, Val):
             return Iter([[n, v] for n, v in exports])
-        if c.endswith("Library::iter_definitions"):
+        if c.endswith("Library::iter_definitions") and isinstance(libtok, Val):
             return UNKNOWN
         return NOT
     mc = Machine(w.fb, intercept=icpt, max_visits=12, budget=800)
@@ -321,6 +337,7 @@ def declaration_table(fb):
     for decl in DECLARATIONS:
         exports = [("a", Val("A")), ("b", Val("B")), ("c", Val("C"))]
         lib, libtok, env = Val("library-name"), Val("library"), Val("env")
+        libtok = library_value(w.fb, lib, exports) or libtok
         selfv = fresh_fields(w.fb)
         if "imported_library" in w.fields:
             selfv[w.fields.index("imported_library")] = Map()
@@ -329,7 +346,7 @@ def declaration_table(fb):
         def icpt(mc, c, a, tt, g, ev=ev, exports=exports, libtok=libtok):
             if c == ITP + "get_library":
                 return ok(libtok)
-            if c.endswith("Library::iter_definitions"):
+            if c.endswith("Library::iter_definitions") and isinstance(libtok, Val):
                 return Iter([[n, v] for n, v in exports]) if a and a[0] is libtok else UNKNOWN
             if c == "environment::LexicalScope::define":
                 ev.append((a[0], a[1], a[2]))
